@@ -5,6 +5,7 @@
   whose values and differences are exact, away from the tolerance boundary.  Values derived at one write
   persist into the next (known finding, DESIGN.md): the theorems speak about one write of a fresh specification.
 -/
+import Dlismodel.Proofs.FrameIdx
 import Dlismodel.Model.Index
 namespace Dlis.C13
 open Dlis
@@ -210,6 +211,23 @@ example : indexAttrs [9, 7, 5, 3] = { imin := some 3, imax := some 9, spacing :=
   decide
 example : (indexAttrs [0, 1000, 2001, 3001]).spacing = .median 2000 := by decide +kernel
 example : indexAttrs [1, 2, 4, 8] = { imin := some 1, imax := some 8, spacing := .absent, direction := some true } := by
+  decide +kernel
+
+/-! Life cycle (`Model/FrameIdx.lean`): the index attributes written are derived from the rows of THIS write, whatever
+earlier writes of the same frame derived, and what the user assigned is kept through all of them. -/
+theorem index_attributes_follow_each_write (h : List (Bool × Bool × List Int)) (hc indexed : Bool) (xs : List Int)
+    (s : FrameIdx) :
+    frameSetup hc indexed xs (frameHistory h s) = frameSetup hc indexed xs s.forget :=
+  frameSetup_after_any_history h hc indexed xs s
+
+theorem user_index_attributes_survive (h : List (Bool × Bool × List Int)) (mn mx sp : Option Int) (di : Option Bool) :
+    (frameHistory h (FrameIdx.user mn mx sp di)).forget = FrameIdx.user mn mx sp di := by
+  rw [frameHistory_user]; simp [FrameIdx.forget, FrameIdx.user]
+
+example :
+    let s1 := (frameSetup false true [1, 2, 4, 8] (FrameIdx.user none none none none)).1
+    let s2 := (frameSetup false true [10, 12, 14] s1).1
+    s1.direction.held = some true ∧ s2.direction.held = none ∧ s2.spacing.held = some 4 ∧ s2.imin.held = some 10 := by
   decide +kernel
 
 end Dlis.C13
